@@ -124,7 +124,7 @@ func (r *bmRun) reload() {
 	var rest []byte
 	if err == nil {
 		rd := bytes.NewReader(buf.Bytes())
-		nr, err = fresh.ReadFrom(rd)
+		nr, err = fresh.ReadFrom(srcOf(rd))
 		rest, _ = io.ReadAll(rd)
 	}
 	var qa, qb [][][2]int64
